@@ -282,24 +282,26 @@ inductive PVal
   | hazardOob
   /-- `ToStdString` writing more than `rawSize` bytes into its buffer -/
   | hazardOverrun
-  /-- `std::length_error` thrown by `vector::reserve` (request above `max_size()`): a foreign C++ exception -/
-  | foreignLength
-  /-- `std::bad_alloc` thrown by `vector::reserve` (the allocation fails): a foreign C++ exception -/
-  | foreignAlloc
+  /-- RuntimeError EXC_RT_OUT_OF_RANGE (`reserve` with a negative or unsatisfiable count) -/
+  | outOfRange
   deriving DecidableEq, Repr
 
 def PVal.isHazard : PVal → Bool
-  | .hazardOob | .hazardOverrun | .foreignLength | .foreignAlloc => true
+  | .hazardOob | .hazardOverrun => true
   | _ => false
 
-/-- `case utf8::Reserve`: null → "Invalid arguments"; otherwise `store.reserve((size_t) n)` with no check at all.
+/-- `case utf8::Reserve` (as of /repo 2b1dab4): null → "Invalid arguments"; a negative count → EXC_RT_OUT_OF_RANGE;
+    otherwise `store.reserve((size_t) n)` inside `try { … } catch (std::exception&)`: `std::length_error` (request above
+    `max_size()`) and `std::bad_alloc` (the allocator does not serve it) both become EXC_RT_OUT_OF_RANGE; else TRUE.
+    The object is not changed in any case (`vector::reserve` has the strong guarantee; capacity is not observable).
     `memLimit` = the largest element count the allocator serves (a constant of the environment). -/
 def pluginReserve (memLimit : Nat) (a0 : Option Int64) : PVal :=
   match a0 with
   | none => .invalidArgs
   | some i =>
-    if MAX_SIZE < toSizeT i then .foreignLength
-    else if memLimit < toSizeT i then .foreignAlloc
+    if i.toInt < 0 then .outOfRange
+    else if MAX_SIZE < toSizeT i then .outOfRange          -- std::length_error caught
+    else if memLimit < toSizeT i then .outOfRange          -- std::bad_alloc caught
     else .bool true
 
 def ofPRes {α : Type} (f : α → PVal) : PRes α → PVal
@@ -342,7 +344,7 @@ def pstep (memLimit : Nat) (u v : UStr) : POp → UStr × PVal
   | .substr1 a0 => (u, ofPRes .str (pluginSubstr1 u a0))
   | .substr2 a0 a1 => (u, ofPRes .str (pluginSubstr2 u a0 a1))
 
-/-- a history of calls on `u`; stops after a foreign exception / hazard (the probe's object may be in any state) -/
+/-- a history of calls on `u`; stops after a C++-level hazard (never produced: `utf8_history_total`) -/
 def prun (memLimit : Nat) (v : UStr) : UStr → List POp → UStr × List PVal
   | u, [] => (u, [])
   | u, op :: ops =>
